@@ -77,6 +77,7 @@ func installKnobs(s *sim.Sim, k plan.Knobs) {
 	vbytes.GetFill = k.GetFill
 	vbytes.Quarantine = k.Quarantine
 	vbytes.PassDoubleRelease = k.PassDoubleRelease
+	vbytes.NoPoison = k.NoPoison
 	vbytes.Report = func(clause, detail string) { s.Fail("C20", clause, "%s", detail) }
 	vsync.PoolPoison = k.PoolPoison
 	otter.SetSimBatch(k.OtterBatch)
